@@ -1226,11 +1226,6 @@ func genFilterCase(rng *Rng) c08FilterCase {
 	pods := [][]kv{}
 	kind := rng.Pick(c08Kinds)
 	res := genRes(rng, kind, "r0", &pods)
-	if rng.Chance(12) {
-		// more perturbation than in builds
-		n, _ := kyaml.Parse(res.Yaml)
-		_ = n
-	}
 	c := c08FilterCase{Doc: res.Yaml, Labels: genPairs(rng, 0, 3), Anno: rng.Chance(30)}
 	n := 1 + rng.Intn(6)
 	for i := 0; i < n; i++ {
@@ -1545,7 +1540,7 @@ func runC08(r *Run, rng *Rng, tier string) error {
 	rng = rng.Fork() // decorrelate consecutive seeds (NewRng streams of s and s+1 overlap)
 	nBuild, nFilter, nSearch := 260, 500, 500
 	if tier == "thorough" {
-		nBuild, nFilter, nSearch = 3000, 6000, 12000
+		nBuild, nFilter, nSearch = 2200, 4500, 9000
 	}
 	r.Meta.Rule = "builds: kustomization trees of depth 1-3 (0-2 bases per layer, 0-3 resources per layer) over Deployment/StatefulSet/DaemonSet/ReplicaSet/Job/CronJob/Pod/" +
 		"ReplicationController/Service/NetworkPolicy/PodDisruptionBudget/ConfigMap/custom kind, label maps present/absent/{}/null, rare odd shapes; directives commonLabels, " +
